@@ -423,11 +423,12 @@ class Runner:
         self.sc = sc
         self.log = []           # spy event log
         self.rec = {'draws': {'train': [], 'valid': []}, 'last_draw': None, 'evals': [], 'metric_calls': [], 'epochs': [],
-                    'fits': [], 'outs': [], 'errors': [], 'steps': [], 'loss_calls': []}
+                    'fits': [], 'outs': [], 'errors': [], 'steps': [], 'loss_calls': [], 'acts': {}}
         self.solutions = []
         self.cur_lid = sc['lid']
         self.in_residuals = False
         self.real_cbs = {}
+        self.monitors = []
 
     # ---- construction through the public constructor
     def build(self):
@@ -461,8 +462,16 @@ class Runner:
         self.eqs = eqs
 
         def mk_metric(i):
+            special = (sc.get('metric_special') or {}).get(str(i))
+            count = [0]
+
             def metric(*args):
                 v = sum((100 * (i + 1) + pos + 1) * a.sum() for pos, a in enumerate(args))
+                if special:          # scripted undefined / degenerate values: nan, inf, zero, negative
+                    tag = special[count[0] % len(special)]
+                    count[0] += 1
+                    if tag is not None:
+                        v = torch.tensor({'nan': float('nan'), 'inf': float('inf'), 'zero': 0.0, 'neg': -3.5}[tag])
                 runner.rec['metric_calls'].append({'i': i, 'draw': runner.rec['last_draw'], 'nargs': len(args), 'value': float(v)})
                 return v
             return metric
@@ -520,17 +529,37 @@ class Runner:
         return cb
 
     def real_callback(self, act):
-        """the REAL neurodiffeq.callbacks.SetLossFn / SetOptimizer under a real PeriodLocal / OnFirstLocal condition
-        (one object per scripted item, so its `called` flag lives as long as the fit call's callback)"""
+        """REAL neurodiffeq.callbacks objects under a real PeriodLocal / OnFirstLocal condition (one object per scripted item,
+        so e.g. the `called` flag of SetLossFn lives as long as the fit call's callback).
+        Modelled effect sets: SetLossFn -> loss function only; SetOptimizer -> optimiser only; StopCallback -> stop flag only;
+        MonitorCallback (MetricsMonitor / Monitor1D), ReportCallback -> NOTHING."""
         key = id(act)
         if key not in self.real_cbs:
             import neurodiffeq.callbacks as CB
-            if act['kind'] == 'real_set_loss':
-                inner = CB.SetLossFn(make_loss(act['lid'], 'none', self.log), reset=act['reset'])
-            else:
-                inner = CB.SetOptimizer(build_optimizer(act['opt'], self.params, self.log, self.rec), reset=act['reset'])
-            c = act['cond']
+            kind = act['kind']
+            c = act.get('cond') or {'type': 'period', 'period': 1, 'offset': 0}
             cond = CB.OnFirstLocal() if c['type'] == 'first' else CB.PeriodLocal(period=c['period'], offset=c['offset'])
+            if kind == 'real_set_loss':
+                inner = CB.SetLossFn(make_loss(act['lid'], 'none', self.log), reset=act['reset'])
+            elif kind == 'real_set_opt':
+                inner = CB.SetOptimizer(build_optimizer(act['opt'], self.params, self.log, self.rec), reset=act['reset'])
+            elif kind == 'real_stop':
+                inner = CB.StopCallback()
+            elif kind == 'real_report':
+                inner = CB.ReportCallback()
+            elif kind == 'real_monitor':
+                import matplotlib
+                matplotlib.use('Agg')
+                import neurodiffeq.monitors as M
+                mon = M.Monitor1D(t_min=-1.0, t_max=1.0, check_every=act['check_every']) if act['which'] == '1d' \
+                    else M.MetricsMonitor(check_every=act['check_every'])
+                self.monitors.append(mon)
+                if act['which'] == 'to_callback':
+                    self.real_cbs[key] = (mon.to_callback(), None, None)        # PeriodLocal(check_every) | OnLastLocal()
+                    return self.real_cbs[key]
+                inner = CB.MonitorCallback(mon)
+            else:
+                raise ValueError(kind)
             self.real_cbs[key] = (inner.conditioned_on(cond), inner, cond)
         return self.real_cbs[key]
 
@@ -542,7 +571,7 @@ class Runner:
                 'stop': bool(s._stop_training), 'max_local': s._max_local_epoch,
                 'nb': dict(s.n_batches), 'n_log': len(self.log), 'n_mcalls': len(self.rec['metric_calls']),
                 'n_evals': len(self.rec['evals']), 'closure': bool(_requires_closure(s.optimizer)),
-                'n_steps': len(self.rec['steps']), 'lid': self.cur_lid, 'tags': [getattr(c, 'tag', 0.0) for c in self.conds],
+                'n_steps': len(self.rec['steps']), 'trainable': [bool(p.requires_grad) for p in self.params], 'lid': self.cur_lid, 'tags': [getattr(c, 'tag', 0.0) for c in self.solver.conditions],
                 'lens': {k: len(v) for k, v in mh.items()},
                 'ndraw': {'train': self.gen['train'].k, 'valid': self.gen['valid'].k}}
 
@@ -564,7 +593,7 @@ class Runner:
                 for p, v in zip(self.params, act['w']):
                     p.copy_(torch.tensor(float(v)))
         elif kind == 'set_conds':
-            for c, t in zip(self.conds, act['tags']):
+            for c, t in zip(s.conditions, act['tags']):
                 if hasattr(c, 'set_tag'):
                     c.set_tag(t)                 # nested state, mutated in place
                 elif hasattr(c, 'tag'):
@@ -575,6 +604,30 @@ class Runner:
             cb(s)
             if fires and kind == 'real_set_loss':
                 self.cur_lid = act['lid']
+        elif kind in ('real_stop', 'real_report', 'real_monitor'):
+            cb = self.real_callback(act)[0]
+            with warnings.catch_warnings():
+                warnings.simplefilter('ignore')
+                cb(s)
+        elif kind == 'rebind_net':
+            # solver.nets[i] = <a NEW network object> for every unknown that uses net k, and a fresh optimiser over the new parameters
+            comp = make_components()
+            k = act['net']
+            new = comp['ToyNet'](act['w'], self.sc['cfg']['kappa'][k])
+            self.nets_u[k] = new
+            self.params[k] = new.w              # the list the spies and the optimiser builder read, updated in place
+            for i, kk in enumerate(self.sc['cfg']['netof']):
+                if kk == k:
+                    s.nets[i] = new
+            s.optimizer = build_optimizer(act['opt'], self.params, self.log, self.rec)
+        elif kind == 'rebind_cond':
+            comp = make_components()
+            i = act['i']
+            cname = COND_KINDS[self.sc['conds'][i]['kind']][0]
+            if cname != 'NoCondition':
+                s.conditions[i] = comp[cname](act['tag'])          # self.conds IS solver.conditions
+        elif kind == 'get_internals':
+            s.get_internals('all')
         elif kind == 'record':
             self.rec['epochs'].append(self.snapshot(fi))
         else:
@@ -603,8 +656,9 @@ class Runner:
                                          'ncbs': len(cbs), 'cb_ids': [int(i) for i in op.get('cb_order', range(len(objs)))]})
             elif k == 'act':
                 self.do_action(op['act'])
+                self.rec['acts'][oi] = {'w': self.weights(), 'tags': [getattr(c, 'tag', 0.0) for c in self.solver.conditions]}
             elif k == 'get_solution':
-                state = {'w': self.weights(), 'best': self.best_weights(), 'tags': [getattr(c, 'tag', 0.0) for c in self.conds]}
+                state = {'w': self.weights(), 'best': self.best_weights(), 'tags': [getattr(c, 'tag', 0.0) for c in self.solver.conditions]}
                 try:
                     with warnings.catch_warnings():
                         warnings.simplefilter('ignore')
@@ -624,7 +678,7 @@ class Runner:
                     self.rec['outs'].append(dict(state, op=oi, kind='get_solution', ok=False, error='RuntimeError'))
             elif k == 'get_solution_single':
                 # BaseSolution's public constructor with a SINGLE nn.Module: replicated once per condition (live objects)
-                state = {'w': self.weights(), 'best': self.best_weights(), 'tags': [getattr(c, 'tag', 0.0) for c in self.conds]}
+                state = {'w': self.weights(), 'best': self.best_weights(), 'tags': [getattr(c, 'tag', 0.0) for c in self.solver.conditions]}
                 with warnings.catch_warnings():
                     warnings.simplefilter('ignore')
                     klass = type(self.solver.get_solution(copy=False, best=False))
@@ -662,13 +716,16 @@ class Runner:
                                shapes=[tuple(o.shape) for o in outs],
                                values=[[float(v) for v in (o.detach().reshape(-1) if isinstance(o, torch.Tensor) else o.reshape(-1))] for o in outs],
                                w_now=self.weights(), best_now=self.best_weights(),
-                               tags_now=[getattr(c, 'tag', 0.0) for c in self.conds])
+                               tags_now=[getattr(c, 'tag', 0.0) for c in self.solver.conditions])
                 except Exception as e:      # canonicalised
                     rec.update(ok=False, error=type(e).__name__, detail=str(e)[:200])
                 self.rec['outs'].append(rec)
             else:
                 raise ValueError(k)
         s = self.solver
+        if self.monitors:
+            import matplotlib.pyplot as plt
+            plt.close('all')
         self.rec['final'] = self.snapshot(None)
         self.rec['history'] = {k: list(v) for k, v in s.metrics_history.items()}
         self.rec['log'] = list(self.log)
@@ -758,6 +815,8 @@ def ccfg(sc):
 
 def caction(a, sc):
     k = a['kind']
+    if k == 'rebind_net':
+        raise ValueError('rebind_net expands to two actions (see cactions)')
     if k == 'set_nb':
         return f'(ASetNb {cphase(a["phase"])} {a["n"]})'
     if k == 'set_loss':
@@ -774,6 +833,20 @@ def caction(a, sc):
     if k == 'record':
         return 'ARecord'
     raise ValueError(k)
+
+
+def cactions(a, sc, after=None):
+    """the model actions of one user action (rebinding a network slot = new parameters for that net + a fresh optimiser;
+    rebinding a condition slot = new condition parameters; calls that only read the solver = nothing)"""
+    k = a['kind']
+    if k == 'rebind_net':
+        return [f'(ASetTheta {cqs(after["w"])})', f'(ASetOpt {copt(a["opt"])})']
+    if k == 'rebind_cond':
+        cs = [dict(c, tag=t) for c, t in zip(sc['conds'], after['tags'])]
+        return [f'(ASetConds {cconds(cs)})']
+    if k in ('get_internals', 'real_report', 'real_monitor'):
+        return []
+    return [caction(a, sc)]
 
 
 def real_cond(act):
@@ -794,11 +867,14 @@ def real_cond(act):
 def ccallback(script, sc):
     parts = []
     for item in script:
-        if item['act']['kind'] in ('real_set_loss', 'real_set_opt'):
+        if item['act']['kind'] in ('real_set_loss', 'real_set_opt', 'real_stop'):
             a = item['act']
-            inner = f'(ASetLoss {a["lid"]})' if a['kind'] == 'real_set_loss' else f'(ASetOpt {copt(a["opt"])})'
-            parts.append(f'(if {real_cond(a)} then ([{inner}] : list t_action) else (@nil t_action))')
+            inner = {'real_set_loss': lambda: f'(ASetLoss {a["lid"]})', 'real_set_opt': lambda: f'(ASetOpt {copt(a["opt"])})',
+                     'real_stop': lambda: 'AStop'}[a['kind']]()
+            parts.append(f'(if {real_cond(dict(a, reset=a.get("reset", True)))} then ([{inner}] : list t_action) else (@nil t_action))')
             continue
+        if item['act']['kind'] in ('real_report', 'real_monitor', 'get_internals'):
+            continue            # modelled effect: none
         act = f'([{caction(item["act"], sc)}] : list t_action)'
         if item['when'] is None:
             parts.append(act)
@@ -922,9 +998,10 @@ def coq_case(sc, rec, exact=True):
                                           f'&& Nat.eqb (cur_valid {cur}) {post["ndraw"]["valid"]} && Nat.eqb (nb_train {cur}) {post["nb"]["train"]} '
                                           f'&& Nat.eqb (nb_valid {cur}) {post["nb"]["valid"]}'))
         elif k == 'act':
-            nxt = f's{oi + 1}'
-            lets.append(f'let {nxt} := t_act {caction(op["act"], sc)} {cur} in')
-            cur = nxt
+            for j, ca in enumerate(cactions(op['act'], sc, rec['acts'].get(oi))):
+                nxt = f's{oi + 1}_{j}'
+                lets.append(f'let {nxt} := t_act {ca} {cur} in')
+                cur = nxt
         elif k == 'get_solution':
             lets.append(f'let sol{nsol} := get_solution {cbool(op["copy"])} {cbool(op["best"])} {cur} in')
             ok = outs[oi]['ok']
@@ -1066,6 +1143,20 @@ def gen_action(r, sc, kinds):
         else:
             act['opt'] = {'kind': 'sgd', 'lr': r.choice([0.5, 0.25, 0.125, 0.0625])}
         return act
+    if k == 'real_stop':
+        return {'kind': k, 'cond': {'type': 'period', 'period': r.randint(2, 4), 'offset': r.randint(0, 3)}}
+    if k == 'real_report':
+        return {'kind': k, 'cond': {'type': 'first'} if r.random() < 0.5 else {'type': 'period', 'period': r.randint(1, 2), 'offset': 0}}
+    if k == 'real_monitor':
+        which = r.choice(['metrics', 'to_callback'] + (['1d'] if sc['cfg']['cls'] == 'S1D' else []))
+        return {'kind': k, 'which': which, 'check_every': r.randint(1, 3),
+                'cond': {'type': 'period', 'period': r.randint(1, 3), 'offset': 0}}
+    if k == 'rebind_net':
+        return {'kind': k, 'net': r.randrange(len(sc['w0'])), 'w': r.randint(-8, 8) / 4, 'opt': gen_opt(r, ['sgd'])}
+    if k == 'rebind_cond':
+        return {'kind': k, 'i': r.randrange(len(sc['conds'])), 'tag': r.randint(-20, 20)}
+    if k == 'get_internals':
+        return {'kind': k}
     if k == 'set_theta':
         return {'kind': 'set_theta', 'w': [r.randint(-8, 8) / 4 for _ in sc['w0']]}
     if k == 'set_conds':
@@ -1075,7 +1166,8 @@ def gen_action(r, sc, kinds):
 
 def gen_scenario(r, classes=CLASSES, opt_kinds=('sgd', 'script'), n_fits=(1, 4), max_epochs=(0, 6), nmetrics=(0, 2),
                  nbt=(1, 3), nbv=(0, 3), lids=(0, 1), cb_actions=('stop',), between_actions=(), sol_ops=False,
-                 tie=False, variadic_spherical=True, max_total_epochs=None, recorder=True, dup_callbacks=False):
+                 tie=False, variadic_spherical=True, max_total_epochs=None, recorder=True, dup_callbacks=False,
+                 metric_special=False):
     cls = r.choice(list(classes))
     ntheta = r.randint(0, 3) if cls == 'Bundle' else 0
     ncoords = NCOORDS.get(cls) or (1 + ntheta if cls == 'Bundle' else r.randint(1, 3))
@@ -1120,6 +1212,9 @@ def gen_scenario(r, classes=CLASSES, opt_kinds=('sgd', 'script'), n_fits=(1, 4),
     if lid >= 2:
         sc['opt']['lr'] = 2.0 ** -10
         sc['w0'] = [r.randint(-2, 2) / 2 for _ in range(nw)]
+    if metric_special and sc['nmetrics']:
+        sc['metric_special'] = {str(i): [r.choice([None, None, 'nan', 'inf', 'zero', 'neg', 'nan']) for _ in range(r.randint(2, 7))]
+                                for i in range(sc['nmetrics']) if r.random() < 0.8}
     ops = sc['ops']
     budget = max_total_epochs
     nf = r.randint(*n_fits)
@@ -1159,7 +1254,7 @@ def gen_scenario(r, classes=CLASSES, opt_kinds=('sgd', 'script'), n_fits=(1, 4),
             ops.append({'op': 'act', 'act': gen_action(r, sc, list(between_actions))})
         if sol_ops:
             for _ in range(r.randint(0, 2)):
-                if r.random() < 0.12:
+                if r.random() < 0.12 and 'rebind_net' not in between_actions:
                     ops.append({'op': 'get_solution_single'})
                 else:
                     ops.append({'op': 'get_solution', 'copy': r.random() < 0.5, 'best': r.random() < 0.5})
@@ -1212,6 +1307,23 @@ def epoch_contexts(rec):
             last_fit = sn['fit']
         out.append((sn, seg, before))
         before = sn
+    return out
+
+
+def stop_epochs(op, m):
+    """local epochs (<= m) at which a stop request is made by the callbacks of a fit op"""
+    out = []
+    for cb in op['cbs']:
+        for it in cb:
+            a = it['act']
+            if a['kind'] == 'stop' and it['when'] is not None and it['when'] <= m:
+                out.append(it['when'])
+            elif a['kind'] == 'real_stop':
+                c = a['cond']
+                for e in range(1, m + 1):
+                    if (c['type'] == 'first' and e == 1) or (c['type'] == 'period' and e % c['period'] == c['offset'] % c['period']):
+                        out.append(e)
+                        break
     return out
 
 
